@@ -91,6 +91,11 @@ FIXED = [
      'a source whose window ends exactly at the image border raised ValueError (ndarray shape passed to astropy overlap_slices)'),
     ('C19', 'db78b58', 'ee-roundtrip|last-monotone-point',
      'CurveOfGrowth.calc_radius_at_ee dropped the last monotone point (radius[0:idx])'),
+    ('C20', '6ef7e68', 'sma-range|below-minsma',
+     'Ellipse.fit_image returned an isophote below minsma (sma0=10, step=0.1, minsma=9.5 -> first inward isophote at 9.09)'),
+    ('C20', 'e16ee6a', 'model|pa-wraps-between-isophotes',
+     'build_ellipse_model splined raw PA values that alternate between ~0 and ~pi for galaxies aligned with the x axis: 4-62 % of the '
+     'fitted region wrong'),
     ('C10', '7feda3d', 'input-mutated|centroid_?dg:data', 'centroid_1dg/2dg modified mask and fill_value of a MaskedArray input'),
     ('C10', 'f9b16e8', 'input-mutated|grid_from_epsfs:meta', "grid_from_epsfs added keys to the caller's meta dict"),
     ('C10', '7313ebf', 'input-mutated|RadialProfile:mask', "profiles did mask |= badmask on the caller's mask"),
